@@ -110,8 +110,12 @@ class Ctx:
             about_entry = any(x in self.T[b['locals'][i]['ty']]['s'] for i in range(1, b['arg_count'] + 1)
                               for x in ('std::fs::DirEntry', 'std::fs::Metadata', 'std::ffi::OsStr', 'std::fs::FileType'))
             small = len([x for x in b['blocks'] if not x['cleanup']]) <= 4 and not self.cg.local_edges.get(k)
-            if self.T[b['locals'][0]['ty']]['k'] == 'bool' and about_entry:
+            rt = self.T[b['locals'][0]['ty']]
+            if rt['k'] == 'bool' and about_entry:
                 self.pure.discard(k)
+            elif about_entry and rt['k'] == 'adt' and rt.get('local') and rt.get('is_enum') and rt.get('variants') and \
+                    all(not v['fields'] for v in rt['variants']) and not self.cg.local_edges.get(k):
+                self.pure.discard(k)        # a classifier: entry -> field-less crate-local enum (`EntryKind::of(&entry, &meta)`)
             elif about_entry and small:
                 self.pure.discard(k)        # e.g. a small value type built from a Metadata (its times)
             elif self.T[b['locals'][0]['ty']]['k'] == 'bool' and small and b['arg_count'] == 1 and \
